@@ -71,8 +71,12 @@ def generate(seed: int, tier: str) -> Dict[str, Any]:
                 x = r.random()
                 if x < 0.5:
                     ops.append({"op": "put", "k": r.choice(KEYS[:3]), "v": next(val), "c": r.choice(COSTS)})
-                elif x < 0.85:
+                elif x < 0.75:
                     ops.append({"op": "get", "k": r.choice(KEYS[:3])})
+                elif x < 0.85:
+                    ops.append({"op": "contains", "k": r.choice(KEYS[:3])})   # membership prunes an expired entry: not read-only
+                elif x < 0.92 and kind == "threads_lru":
+                    ops.append({"op": "clock", "k": None, "ms": r.choice([1000, 1001, 2500])})
                 else:
                     ops.append({"op": "items", "k": None})  # a snapshot read: must equal the contents at ONE instant
             threads.append(ops)
@@ -489,16 +493,23 @@ def _threads(p: Dict[str, Any], stats: Dict[str, int]) -> Tuple[List[Dict[str, A
             inner: Any = LRUBytes(me, mb)
             cache: Any = ThreadSafeBytesCache(inner, lock=lock)
         else:
-            inner = LRUCache(max_entries=me, ttl_s=0, time_fn=lambda: 0.0)
+            tnow = [0.0]
+            tttl = int(p.get("ttl", 0))
+            inner = LRUCache(max_entries=me, ttl_s=tttl, time_fn=lambda: tnow[0])
             cache = ThreadSafeCache(inner, lock=lock)
 
         def worker(ops, tid):
             def run():
                 for op in ops:
-                    h = {"t": tid, "op": op["op"], "k": op["k"], "v": op.get("v"), "c": op.get("c"), "inv": next(seq)}
+                    h = {"t": tid, "op": op["op"], "k": op["k"], "v": op.get("v"), "c": op.get("c"), "ms": op.get("ms"), "inv": next(seq)}
                     if op["op"] == "put":
                         r = cache.put(op["k"], op["v"], op["c"]) if bytes_mode else cache.put(op["k"], op["v"])
                         h["res"] = tuple(r) if bytes_mode else None
+                    elif op["op"] == "contains":
+                        h["res"] = bool(op["k"] in cache)
+                    elif op["op"] == "clock":
+                        tnow[0] += float(op["ms"]) / 1000.0   # the injected clock moves between (not inside) cache operations
+                        h["res"] = None
                     elif op["op"] == "items":
                         snap = cache.items()
                         sched.yield_point("items.returned")  # whatever came back is consumed later, as callers do
@@ -546,13 +557,17 @@ def _threads(p: Dict[str, Any], stats: Dict[str, int]) -> Tuple[List[Dict[str, A
                 return tuple(m.put(h["k"], h["v"], h["c"]))
             if h["op"] == "items":
                 return tuple((k, vc[0]) for k, vc in m.d.items())
+            if h["op"] == "contains":
+                return bool(m.contains(h["k"]))
             return m.get(h["k"])
     else:
         if inner.size() > me:
             viol.append({"cls": "threads", "sig": "%s:cap" % kind, "detail": "size %d > %d" % (inner.size(), me)})
 
         def mk(m):
-            n = MTtl(me, 0, lambda: 0.0)
+            box = [0.0 if m is None else m.box[0]]
+            n = MTtl(me, tttl, lambda: box[0])
+            n.box = box
             if m is not None:
                 n.d = OrderedDict(m.d)
             return n
@@ -561,8 +576,13 @@ def _threads(p: Dict[str, Any], stats: Dict[str, int]) -> Tuple[List[Dict[str, A
             if h["op"] == "put":
                 m.set(h["k"], h["v"])
                 return None
+            if h["op"] == "clock":
+                m.box[0] += float(h["ms"]) / 1000.0
+                return None
+            if h["op"] == "contains":
+                return bool(m.contains(h["k"]))
             if h["op"] == "items":
-                return tuple((k, tv[1]) for k, tv in m.d.items())
+                return tuple(m.items())
             hit, v = m.get(h["k"])
             return v if hit else None
     if not viol and not _linearizable(history, mk, ap):
